@@ -3,9 +3,12 @@
    RDATA validation, the whole pre-scan, the opcode/QTYPE/catalog dispatch (Model/Server.v); response
    side for a clean QUERY in a Loaded zone: the query model (Model/Query.v) over the tree zone
    (Model/ZoneTree.v) driving the octet-level Writer (Model/MsgWriter.v) up to and including finish —
-   returns a response or none, never Panic.  Still parameters (universally quantified): HMAC
-   verification [verify] (its totality on the TSIG model is C11), and query answering [answer] for a
-   request whose TSIG VERIFIED (the Writer model has no signing TSIG mode).
+   returns a response or none, never Panic; every other response without a TSIG (NOTIMP / REFUSED /
+   SERVFAIL to a clean QUERY; FORMERR, BADVERS, ... decided by the pre-scan) is likewise produced in
+   octets by the Writer model (QueryW.respond_plain, ServerW.serialize_resp).  Still parameters
+   (universally quantified): HMAC verification [verify] (its totality on the TSIG model is C11), and
+   query answering [answer] for a request whose TSIG VERIFIED; a response that carries a TSIG stays
+   abstract (the Writer model has no signing TSIG mode).
    c01_no_panic_partial: the first-wave statement (request side only), kept. *)
 From QV Require Import Base.ListX Model.NameWire Model.Reader Model.RdataLite Model.Server Proofs.ReaderP Proofs.ServerP.
 From QV Require Import Model.ZoneTree Model.Query Model.QueryW Model.ServerW Proofs.ZoneTopP
@@ -29,8 +32,8 @@ Proof. split; vm_compute; reflexivity. Qed.
    buffer of the size handle_message demands, key set, verifier, and every catalog whose Loaded
    entries are zones built by adds ([catalog_ok]: zone_build over any record list whose RDATA are
    at most 65535 octets < 256 with 16-bit types, any transitive Rdata::equals, a valid apex Name):
-   the composed model returns Ok — a response (abstract, or the finished OCTETS for an answer out
-   of a Loaded zone) or none.  Inside: every zone lookup, RDATA name parse, CNAME chase and
+   the composed model returns Ok — a response (the finished OCTETS, or abstract iff it carries a TSIG)
+   or none.  Inside: every zone lookup, RDATA name parse, CNAME chase and
    PreviousOwners push of query.rs, every Writer operation it issues (shown to obey the Writer's
    hint contract: Proofs/ComposeKeyP.v), rollbacks, clear_rrs, the error mapping, and finish. *)
 Theorem c01_no_panic : forall zones negttl answer verify cfg buf req,
